@@ -31,6 +31,24 @@ func tree(n int, salt int) fsmodel.Tree {
 	return t
 }
 
+// wide is the other shape: content files first, then many directories the receiver has to create (with files of
+// their own), then more content - directories are being created while earlier files are still being written.
+func wide(n int, salt int) fsmodel.Tree {
+	var t fsmodel.Tree
+	for i := 0; i < 3; i++ {
+		t = append(t, fsmodel.Node{Path: fmt.Sprintf("a%d", i), Kind: fsmodel.File, Perm: 0644, Mtime: fsmodel.T0 + int64(i+salt), Data: fsmodel.Content(i+salt, 70000+i*9000)})
+	}
+	for i := 0; i < n; i++ {
+		d := fmt.Sprintf("m%02d", i)
+		t = append(t, fsmodel.Node{Path: d, Kind: fsmodel.Dir, Perm: 0755, Mtime: fsmodel.T0 + int64(i)},
+			fsmodel.Node{Path: d + "/f", Kind: fsmodel.File, Perm: 0644, Mtime: fsmodel.T0 + int64(i+salt), Data: fsmodel.Content(i+salt, 100+i)},
+			fsmodel.Node{Path: d + "/sub", Kind: fsmodel.Dir, Perm: 0755, Mtime: fsmodel.T0 + int64(i)})
+	}
+	t = append(t, fsmodel.Node{Path: "z", Kind: fsmodel.File, Perm: 0644, Mtime: fsmodel.T0 + int64(salt), Data: fsmodel.Content(salt, 40000)})
+	t.Sort()
+	return t
+}
+
 func main() {
 	runs, _ := strconv.Atoi(os.Args[1])
 	defer scratch.Cleanup()
@@ -38,6 +56,9 @@ func main() {
 	for i := 0; i < runs; i++ {
 		runtime.GOMAXPROCS([]int{1, 2, 4, 16}[i%4])
 		src := tree(3+i%6, 0)
+		if i%5 >= 3 {
+			src = wide(10+i%30, 0)
+		}
 		dst := scratch.Dir("race")
 		if i%2 == 1 {
 			fsmodel.Materialize(tree(2+i%4, 5), dst)
